@@ -246,6 +246,18 @@ def reply_table(ctx: Ctx, chk) -> None:
             chk.ok(rule, key, "release of a parked command (C07)", loc, sample=False)
             continue
         arg = call.args[0] if call.args else None
+        if isinstance(arg, ast.Name):
+            # `x = None if <c> else Message(..)` ... `if x is not None: send(x)`: at the send x is the message
+            t_ = Canon(I, f).tree(arg)
+            if isinstance(t_, ast.IfExp) and isinstance(t_.body, ast.Constant) and t_.body.value is None:
+                g_ = CFG(f.node)
+                cnodes_ = g_.nodes_where(lambda x: x.contains(call))
+                for tn_ in g_.nodes:
+                    if tn_.kind == "test" and norm(tn_.ast) == f"{arg.id} is not None" and cnodes_ and all(g_.dominates(tn_, c_) for c_ in cnodes_):
+                        other_ = [s_ for s_, lab_ in tn_.succ if lab_ == "f"]
+                        if g_.reach_avoiding(other_, lambda x: x in cnodes_, lambda x, tn_=tn_: x is tn_, from_succ=False) is None:
+                            arg = t_.orelse
+                            break
         term = message_term(ctx, f, arg) if arg is not None else None
         if term is None and arg is not None and not (isinstance(arg, ast.Name) and arg.id in f.params):
             cn_ = Canon(I, f).canon(arg)
